@@ -808,6 +808,17 @@ class ConcreteSeparable(Task):
         c = self.cfg
         if c.get("terms") == "identity":
             return np.eye(c["dims"][0] * c["dims"][1]) * c.get("scale", 1.0)
+        if c.get("terms") == "4 terms, one party confined to a 2-dimensional subspace":
+            # rank-4 two-qutrit product mixtures whose reduced state on one side has rank 2
+            tot = 0
+            for k in range(4):
+                a = np.array(family_vector(3, 2 * k + 1, c["entries"] == "complex"), dtype=complex)
+                a[2] = 0
+                b = np.array(family_vector(3, 2 * k + 2, c["entries"] == "complex"), dtype=complex)
+                a, b = a / np.linalg.norm(a), b / np.linalg.norm(b)
+                pa, pb = np.outer(a, a.conj()), np.outer(b, b.conj())
+                tot = tot + (np.kron(pa, pb) if c["confined"] == "first" else np.kron(pb, pa)) / 4
+            return tot if c["entries"] == "complex" else np.real(tot)
         return concrete_mixture(c["dims"][0], c["dims"][1], c["terms"], c["entries"] == "complex") * c.get("scale", 1.0)
 
     def _verdict(self):
@@ -862,6 +873,11 @@ def concrete_tasks(T):
                    "family": "c * sum_k (1/K) P(a_k) (x) P(b_k): an un-normalised separable operator (trace c)"}
             out.append(ConcreteSeparable("is_separable.concrete_product_mixtures_are_declared_separable", cfg,
                                          lambda rho, dim=[dA, dB]: is_separable(rho, dim)))
+    for cplx in (False, True):
+        for conf in ("first", "second"):
+            cfg = {"dims": [3, 3], "terms": "4 terms, one party confined to a 2-dimensional subspace", "entries": "complex" if cplx else "real", "dim_arg": "list",
+                   "confined": conf, "family": "sum_k (1/4) P(a_k) (x) P(b_k) with the a_k in span{e0, e1}: global rank 4, one reduced state of rank 2"}
+            out.append(ConcreteSeparable("is_separable.concrete_product_mixtures_are_declared_separable", cfg, lambda rho: is_separable(rho, [3, 3])))
     for (dA, dB), form in [((3, 3), "list"), ((3, 3), "omitted"), ((2, 4), "list"), ((2, 4), "scalar"), ((4, 4), "omitted")]:
         cfg = {"dims": [dA, dB], "terms": "identity", "entries": "real", "dim_arg": form, "scale": 1.0,
                "family": "the identity operator (un-normalised maximally mixed state, trace dA*dB)"}
